@@ -92,12 +92,14 @@ class Interp:
         self.cur_func = '?'
         self.cur_inputs = None
         self.cur_opaque = ()
+        self.cur_unit = None
         self.inlined = set()
         self.used_contracts = set()
         self.used_lemmas = set()
         self.assumed = set()
         self.max_unroll = 4096
         self.naming = False
+        self.concretizations = 0
         self.bounded_k = None                 # bounded stand-in mode: unroll symbolic loops at most k times
         self.bounded_cut = 0
         self.depth = 0
@@ -122,6 +124,8 @@ class Interp:
             extra.setdefault('inputs', self.cur_inputs)
         if self.cur_opaque:
             extra.setdefault('opaque', self.cur_opaque)
+        if self.cur_unit is not None:
+            extra.setdefault('unit', self.cur_unit)
         o = Obligation(name, kind, st.pc, goal, self.cur_func, line, clause, top, extra)
         self.obls.append(o)
         return o
@@ -216,6 +220,22 @@ class Interp:
         if isinstance(v, Sym) and v.ty == 'str' and z3.is_string_value(v.t):
             return v.t.as_string()
         return v
+
+    def concretize_seq(self, st, it):
+        """a symbolic sequence whose length the path condition determines: its elements as a python list"""
+        sv = ops.seq_view(self, st, it)
+        if sv is None or sv[1] in ('char', 'byte'):
+            return None
+        term, elty = sv
+        from .solve import unique_int_value
+        hyps = list(st.pc)
+        if self.specs is not None:
+            hyps += self.specs.unfold(self, hyps + [z3.Length(term) >= 0])
+        n = unique_int_value(hyps, z3.Length(term))
+        self.concretizations += 1
+        if n is None or n > 64:
+            return None
+        return [mk(term[k], elty) for k in range(n)]
 
     def branch(self, st, cond):
         """fork the evaluation on a symbolic condition; returns python bool for this path"""
@@ -605,6 +625,8 @@ class Interp:
                 outs.append((kind, s, it))
                 continue
             seq = ops.concrete_iter(self, s, it)
+            if seq is None and spec is None and self.bounded_k is None:
+                seq = self.concretize_seq(s, it)
             if seq is not None and spec is None:
                 outs.extend(self.unroll_for(stmt, s, seq))
             else:
@@ -1037,7 +1059,10 @@ class Interp:
                 elif is_and:
                     res = merge_value(t, rest, v, s2, st, st)
                 else:
-                    res = merge_value(t, v, rest, st, s2, st)
+                    vv = v
+                    if isinstance(v, Sym) and is_opt(v.ty):
+                        vv = mk(opt_val(v.ty, v.t), v.ty[1])       # `x or y` yields x only when x is truthy, hence not None
+                    res = merge_value(t, vv, rest, st, s2, st)
                 for f in s2.pc[n + 1:]:
                     st.pc.append(z3.Implies(guard, f))
                 return res
@@ -1153,6 +1178,8 @@ class Interp:
         g = gens[i]
         itv = self.eval(g.iter, st)
         seq = ops.concrete_iter(self, st, itv)
+        if seq is None:
+            seq = self.concretize_seq(st, itv)
         if seq is None:
             raise Unsupported('comprehension over symbolic iterable (line %d)' % g.iter.lineno)
         for x in seq:
